@@ -36,8 +36,12 @@ package augment
 //@   ensures [C08] consumes-a-token: tokLeft(f) < old(tokLeft(f))
 //@   ensures f.errors.arr == old(f.errors.arr) || fresh(f.errors.arr)
 
+// `...` directly followed by an identifier on the same line is Go's variadic operator and is left
+// alone; every other `...` is an elision and is replaced by a placeholder of the same length (3 bytes).
 //@ func (f *finder) ellipsis
 //@   requires finderOK(f) && f.tok != const("go/token.EOF")
+//@   at call (*pgo/augment.finder).append assert [C04,C13] elision-unless-variadic: !(f.tok == const("go/token.IDENT") && fileLine(f.file, pos) == fileLine(f.file, f.pos))
+//@   at call (*pgo/augment.finder).next#1 assert [C04,C13] variadic-is-an-identifier-on-the-same-line: f.tok == const("go/token.IDENT") && fileLine(f.file, pos) == fileLine(f.file, f.pos)
 //@   assigns f.pos, f.tok, f.offset, f.errors, elems(f.errors), f.augs, elems(f.augs), scanLeft
 //@   ensures finderOK(f)
 //@   ensures [C08] consumes-a-token: tokLeft(f) < old(tokLeft(f))
